@@ -68,7 +68,7 @@ func toks(b dyn.Buf) []int64 {
 func fill(b dyn.Buf, first int64) int64 {
 	n := b.Len()
 	for i := 0; i < n; i++ {
-		b.SetSample(i, dyn.Tok(b.T(), first))
+		b.SetSample(i, dyn.Tok(b.T(), tk(first)))
 		first++
 	}
 	return first
